@@ -572,6 +572,7 @@ package webrtc
 // inside the packet, and a set padding bit comes with a padding count that fits the payload.
 //@ func (interceptor.RTPReader).Read
 //@ trusted
+//@ ensures err == nil ==> ret0 == ufint("rtxlen")
 //@ ensures err == nil ==> 12 <= ret0 && ret0 <= len(arg0) && ret0 < 65536 && (forall k int :: 0 <= k && k < ret0 ==> arg0[k] == ufbyte("rtx", k))
 //@ ensures err == nil ==> 12 + 4*int(ufbyte("rtx", 0)&15) <= ret0
 //@ ensures err == nil && ufbyte("rtx", 0)&16 != 0 ==> 12 + 4*int(ufbyte("rtx", 0)&15) + 4 + 4*(int(ufbyte("rtx", 12 + 4*int(ufbyte("rtx", 0)&15) + 2))<<8 | int(ufbyte("rtx", 12 + 4*int(ufbyte("rtx", 0)&15) + 3))) <= ret0
@@ -600,12 +601,12 @@ package webrtc
 //@ requires r != nil && remoteTrack != nil && repairInterceptor != nil
 //@ atsend assert ufbyte("rtx", 0)&16 == 0 ==> int(headerLength) == 12 + 4*int(ufbyte("rtx", 0)&15)
 //@ atsend assert ufbyte("rtx", 0)&16 != 0 ==> int(headerLength) == 12 + 4*int(ufbyte("rtx", 0)&15) + 4 + 4*(int(ufbyte("rtx", 12 + 4*int(ufbyte("rtx", 0)&15) + 2))<<8 | int(ufbyte("rtx", 12 + 4*int(ufbyte("rtx", 0)&15) + 3)))
-//@ atsend assert i - int(headerLength) >= 2 && len(sent.pkt) == i - 2 && sameptr(sent.pkt, b)
+//@ atsend assert ufint("rtxlen") - int(headerLength) >= 2 && len(sent.pkt) == ufint("rtxlen") - 2 && sameptr(sent.pkt, b)
 //@ atsend assert b[0] == ufbyte("rtx", 0) && b[1] == (ufbyte("rtx", 1)&0x80)|uint8(remoteTrack.payloadType) && b[2] == ufbyte("rtx", int(headerLength)) && b[3] == ufbyte("rtx", int(headerLength)+1)
 //@ atsend assert b[4] == ufbyte("rtx", 4) && b[5] == ufbyte("rtx", 5) && b[6] == ufbyte("rtx", 6) && b[7] == ufbyte("rtx", 7)
 //@ atsend assert b[8] == uint8(remoteTrack.ssrc>>24) && b[9] == uint8(remoteTrack.ssrc>>16) && b[10] == uint8(remoteTrack.ssrc>>8) && b[11] == uint8(remoteTrack.ssrc)
 //@ atsend assert forall k int :: 12 <= k && k < int(headerLength) ==> b[k] == ufbyte("rtx", k)
-//@ atsend assert forall k int :: int(headerLength) <= k && k < i - 2 ==> b[k] == ufbyte("rtx", k + 2)
+//@ atsend assert forall k int :: int(headerLength) <= k && k < ufint("rtxlen") - 2 ==> b[k] == ufbyte("rtx", k + 2)
 
 // ---------------------------------------------------------------- C29 (static RTP track fan-out)
 // Assumed contracts: a bound writer does not write through the header pointer or the
